@@ -333,12 +333,12 @@ Proof. intros H. unfold col_values. apply in_or_app. right. apply in_or_app. lef
 Lemma In_col_values_max c mx : z_max (c_zone c) = Some mx -> In mx (col_values c).
 Proof. intros H. unfold col_values. apply in_or_app. right. apply in_or_app. right. rewrite H. cbn. auto. Qed.
 
-Lemma col_might_match_sound c o q n x :
+Lemma col_might_match_pre_sound c o q n x :
   ColInv c -> In (n, x) (c_vals c) -> sat o x q = true ->
   k_zone_round_col c o q = false -> k_zone_ne_col c o q = false -> (o = OpNe -> is_float q = false) ->
-  col_might_match c o q = true.
+  col_might_match_pre c o q = true.
 Proof.
-  intros [W C] Hin S K4 K5 NF. pose proof (C n x Hin) as Cx. unfold col_might_match. destruct (c_dirty c); [reflexivity|].
+  intros [W C] Hin S K4 K5 NF. pose proof (C n x Hin) as Cx. unfold col_might_match_pre. destruct (c_dirty c); [reflexivity|].
   assert (SUB : forall b, z_min (c_zone c) = Some b \/ z_max (c_zone c) = Some b ->
                           forall v, In v [q; x; b] -> In v (q :: col_values c)).
   { intros b Hb v [<-|[<-|[<-|[]]]]; [left; reflexivity|right; eapply In_col_values_stored; exact Hin|].
@@ -359,14 +359,14 @@ Proof.
     destruct (cmp_range x q) as [[]|]; try discriminate S; [right; split; reflexivity|left; reflexivity].
 Qed.
 
-Lemma ps_might_match_sound p key o q n x :
+Lemma ps_might_match_pre_sound_nf p key o q n x :
   PsInv p -> ps_get p n key = Some x -> sat o x q = true ->
   ps_zone_class p key o q = false -> (o = OpNe -> is_float q = false) ->
-  ps_might_match p key o q = true.
+  ps_might_match_pre p key o q = true.
 Proof.
   intros P G S K NF. destruct (ps_get_covers p n key x P G) as (c & E & CI & Hin & _).
-  unfold ps_might_match, ps_zone_class in *. rewrite E in *. apply orb_false_iff in K. destruct K as [K4 K5].
-  eapply col_might_match_sound; eassumption.
+  unfold ps_might_match_pre, ps_zone_class in *. rewrite E in *. apply orb_false_iff in K. destruct K as [K4 K5].
+  eapply col_might_match_pre_sound; eassumption.
 Qed.
 
 (** * range lookups *)
@@ -423,16 +423,16 @@ Proof.
 Qed.
 
 (** * the theorems over all histories *)
-Lemma might_match_sound_l b ops (node : bool) key o q :
+Lemma might_match_pre_sound_nf_l b ops (node : bool) key o q :
   let s := run (init b) ops in
   let p := if node then nprops s else eprops s in
   ps_zone_class p key o q = false -> (o = OpNe -> is_float q = false) ->
-  ps_might_match p key o q = false -> forall n x, ps_get p n key = Some x -> sat o x q = false.
+  ps_might_match_pre p key o q = false -> forall n x, ps_get p n key = Some x -> sat o x q = false.
 Proof.
   cbv zeta. intros K NF M n x G. destruct (sat o x q) eqn:S; [|reflexivity]. exfalso.
   destruct (ZInv_run b ops) as [PN PE].
   assert (P : PsInv (if node then nprops (run (init b) ops) else eprops (run (init b) ops))) by (destruct node; assumption).
-  rewrite (ps_might_match_sound _ key o q n x P G S K NF) in M. discriminate M.
+  rewrite (ps_might_match_pre_sound_nf _ key o q n x P G S K NF) in M. discriminate M.
 Qed.
 
 Lemma range_sound_l b ops key lo hi li hi_i :
@@ -548,39 +548,72 @@ Proof.
   rewrite (f64_eq_of_num xb qb yq Wx Wq Yx Yq) in NE. discriminate NE.
 Qed.
 
-Lemma col_might_match_sound_full c o q n x :
+Lemma col_might_match_pre_sound_full c o q n x :
   ColInv c -> In (n, x) (c_vals c) -> sat o x q = true ->
   k_zone_round_col c o q = false -> k_zone_ne_col c o q = false ->
   (o = OpNe -> is_float q = true -> ColWf c /\ value_wf q) ->
-  col_might_match c o q = true.
+  col_might_match_pre c o q = true.
 Proof.
   intros CI Hin S K4 K5 W.
-  destruct (is_float q) eqn:F; [|eapply col_might_match_sound; try eassumption; intros _; exact F].
-  destruct o; try (eapply col_might_match_sound; try eassumption; intros D; discriminate D).
+  destruct (is_float q) eqn:F; [|eapply col_might_match_pre_sound; try eassumption; intros _; exact F].
+  destruct o; try (eapply col_might_match_pre_sound; try eassumption; intros D; discriminate D).
   (* OpNe with a Float64 query value *)
   destruct (W eq_refl eq_refl) as [CW Wq]. destruct CI as [Wz C]. pose proof (C n x Hin) as Cx.
-  unfold col_might_match. destruct (c_dirty c); [reflexivity|].
+  unfold col_might_match_pre. destruct (c_dirty c); [reflexivity|].
   cbn [sat] in S. apply andb_true_iff in S. destruct S as [S1 S2]. apply negb_true_iff in S1, S2.
   apply zone_ne_sound_float with (x := x); try assumption; [eapply CW; exact Hin|].
   intros mn mx Emn Emx v Hv. cbn [k_zone_ne_col] in K5. apply (existsb_false_in _ _ K5).
   destruct Hv as [<-|[<-|[<-|[]]]]; [eapply In_col_values_stored; exact Hin|apply In_col_values_min; exact Emn|apply In_col_values_max; exact Emx].
 Qed.
 
-Lemma might_match_sound_full b ops (node : bool) key o q :
+Lemma might_match_pre_sound_full b ops (node : bool) key o q :
   let s := run (init b) ops in
   let p := if node then nprops s else eprops s in
   (o = OpNe -> is_float q = true -> hist_vals_wf ops /\ value_wf q) ->
   ps_zone_class p key o q = false ->
-  ps_might_match p key o q = false -> forall n x, ps_get p n key = Some x -> sat o x q = false.
+  ps_might_match_pre p key o q = false -> forall n x, ps_get p n key = Some x -> sat o x q = false.
 Proof.
   cbv zeta. intros W K M n x G. destruct (sat o x q) eqn:S; [|reflexivity]. exfalso.
   destruct (ZInv_run b ops) as [PN PE].
   set (p := if node then nprops (run (init b) ops) else eprops (run (init b) ops)) in *.
   assert (P : PsInv p) by (unfold p; destruct node; assumption).
   destruct (ps_get_covers p n key x P G) as (c & E & CI & Hin & _).
-  unfold ps_might_match, ps_zone_class in *. rewrite E in *. apply orb_false_iff in K. destruct K as [K4 K5].
-  rewrite (col_might_match_sound_full c o q n x CI Hin S K4 K5) in M; [discriminate M|].
+  unfold ps_might_match_pre, ps_zone_class in *. rewrite E in *. apply orb_false_iff in K. destruct K as [K4 K5].
+  rewrite (col_might_match_pre_sound_full c o q n x CI Hin S K4 K5) in M; [discriminate M|].
   intros Ho Fq. destruct (W Ho Fq) as [HW Wq]. split; [|exact Wq].
   destruct (WInv_run b ops HW) as [WN WE]. assert (PW : PsWf p) by (unfold p; destruct node; assumption).
   eapply PW. apply zget_In. exact E.
+Qed.
+
+Lemma cmpop_eq_ne o : o = OpNe \/ o <> OpNe.
+Proof. destruct o; try (right; discriminate); left; reflexivity. Qed.
+
+(** * the current code (fix 1879631): [<>] is never pruned, only K4 remains *)
+Lemma col_might_match_cur_pre c o q : o <> OpNe -> col_might_match c o q = col_might_match_pre c o q.
+Proof. intros H. unfold col_might_match, col_might_match_pre. destruct o; try reflexivity. exfalso. apply H. reflexivity. Qed.
+
+Lemma col_might_match_sound c o q n x :
+  ColInv c -> In (n, x) (c_vals c) -> sat o x q = true -> k_zone_round_col c o q = false ->
+  col_might_match c o q = true.
+Proof.
+  intros CI Hin S K4. destruct (cmpop_eq_ne o) as [->|NE].
+  - unfold col_might_match. destruct (c_dirty c); reflexivity.
+  - rewrite (col_might_match_cur_pre c o q NE). eapply col_might_match_pre_sound_full; try eassumption.
+    + destruct o; try reflexivity. exfalso. apply NE. reflexivity.
+    + intros E. exfalso. apply NE. exact E.
+Qed.
+
+Lemma might_match_sound_l b ops (node : bool) key o q :
+  let s := run (init b) ops in
+  let p := if node then nprops s else eprops s in
+  ps_round_class p key o q = false ->
+  ps_might_match p key o q = false -> forall n x, ps_get p n key = Some x -> sat o x q = false.
+Proof.
+  cbv zeta. intros K M n x G. destruct (sat o x q) eqn:S; [|reflexivity]. exfalso.
+  destruct (ZInv_run b ops) as [PN PE].
+  set (p := if node then nprops (run (init b) ops) else eprops (run (init b) ops)) in *.
+  assert (P : PsInv p) by (unfold p; destruct node; assumption).
+  destruct (ps_get_covers p n key x P G) as (c & E & CI & Hin & _).
+  unfold ps_might_match, ps_round_class in *. rewrite E in *.
+  rewrite (col_might_match_sound c o q n x CI Hin S K) in M. discriminate M.
 Qed.
